@@ -6,3 +6,6 @@ import GontainerModel.Props.C14
 #print axioms GM.C14.alias_memo
 #print axioms GM.C14.sanitize_forms
 #print axioms GM.C14.pin_import_regex
+#print axioms GM.C14.local_names_distinct
+#print axioms GM.C14.import_block_distinct
+#print axioms GM.C14.same_name_iff_same_package
